@@ -61,6 +61,16 @@ Definition sub_mismatch (c : sub_case) : bool :=
         && list_eqb Bool.eqb (map res_true (sw_rets w)) (sk_rets c)
         && counts_agree slabel_eqb (s_tab o) (map sobs_label (sw_obs w))).
 
+(** the acceptor on the MODEL's own run of the case (the list-level acceptance of the subscriber
+    acceptor is not a theorem; it is evaluated on every generated case instead) *)
+Definition sub_model_rejected (c : sub_case) : bool :=
+  let w := srun (sk_st c) (sk_heap c) (sk_ops c) in
+  negb (sub_monitor (sk_st c) (sk_heap c) (sk_ops c)
+          (SSeen (map (fun x => (fst x, sm_rest (snd x), sm_trail (snd x))) (sw_out w))
+                 (map (fun m => st (sm_st m)) (sw_heap w)) (sw_closes w)
+                 (map (fun x => (fst x, snd (pclose (sk_st c) (fst x)))) (s_close_rets (sk_seen c)))
+                 (map (fun o => (sobs_label o, 1)) (sw_obs w)))).
+
 Definition sub_violates (c : sub_case) : bool :=
   negb (sub_monitor (sk_st c) (sk_heap c) (sk_ops c) (sk_seen c)).
 
@@ -129,6 +139,7 @@ Definition c20_pub_mismatches (cs : list pub_case) : list nat := positions (map 
 Definition c20_pub_violations (cs : list pub_case) : list nat := positions (map pub_violates cs).
 Definition c20_sub_mismatches (cs : list sub_case) : list nat := positions (map sub_mismatch cs).
 Definition c20_sub_violations (cs : list sub_case) : list nat := positions (map sub_violates cs).
+Definition c20_sub_model_rejected (cs : list sub_case) : list nat := positions (map sub_model_rejected cs).
 Definition c20_mw_mismatches (fixed : bool) (cs : list mw_case) : list nat := positions (map (mw_mismatch fixed) cs).
 Definition c20_mw_violations (cs : list mw_case) : list nat := positions (map mw_violates cs).
 Definition c20_delay_mismatches (cs : list delay_case) : list nat := positions (map delay_mismatch cs).
